@@ -3,6 +3,7 @@
 // 128^3 grid) driven through the public API; oracle on the total-level register writes seen by the tap.
 #include "common/inst.hpp"
 #include <array>
+#include <map>
 
 using namespace vf;
 
@@ -19,7 +20,7 @@ static std::string show(const Cfg &c, int vel, int vol, int expr) {
 struct Rig {
     Inst I; OPN2_Bank bank;
     void start() {
-        tap_install(); tap().log.clear();
+        tap_install(); tap().log.clear(); regs.clear(); absorbed = 0; have_cur = false;
         I.open(8000);
         opn2_switchEmulator(I.dev, EMU_NP2); opn2_setNumChips(I.dev, 1);
         VCHECK(api_get_bank(I.dev, 0, 0, 0, &bank), "cannot create bank");
@@ -37,18 +38,27 @@ struct Rig {
         VCHECK(opn2_rt_systemExclusive(I.dev, mv, 8) == 1, "master volume SysEx rejected");
         opn2_rt_controllerChange(I.dev, 0, 74, (OPN2_UInt8)c.bright);
     }
-    // last TL written for each of the four operator registers since `from`; -1 if none
-    std::array<int, 4> last_tl(size_t from) {
-        std::array<int, 4> r = {{-1, -1, -1, -1}};
+    // The four total-level registers of the chip channel that was keyed on last, as the chip holds them now (the last value
+    // written to each, whenever that was): an implementation is free to skip writes that would not change a register.
+    std::map<unsigned, int> regs; size_t absorbed = 0; unsigned cur_chip = 0, cur_port = 0, cur_cc = 0; bool have_cur = false;
+    void absorb() {
         TapState &t = tap();
-        for(size_t i = from; i < t.log.size(); i++) {
-            const TapRec &w = t.log[i];
+        for(; absorbed < t.log.size(); absorbed++) {
+            const TapRec &w = t.log[absorbed];
             if(w.kind == 2) continue;
             if(w.reg >= 0x40 && w.reg <= 0x4F) {
                 VCHECK(w.val <= 127, "total-level value %u written to register 0x%02X is outside 0..127", w.val, w.reg);
-                r[(w.reg - 0x40) / 4] = (int)w.val;
+                regs[((unsigned)w.chip << 16) | ((unsigned)w.port << 8) | w.reg] = (int)w.val;
             }
+            if(w.reg == 0x28 && w.port == 0 && (w.val & 0xF0)) { unsigned code = w.val & 7; cur_chip = w.chip; cur_port = code >> 2; cur_cc = code & 3; have_cur = true; }
         }
+    }
+    void clear_log() { absorb(); tap().log.clear(); absorbed = 0; }
+    std::array<int, 4> last_tl(size_t) {
+        absorb();
+        std::array<int, 4> r = {{-1, -1, -1, -1}};
+        if(!have_cur) return r;
+        for(int k = 0; k < 4; k++) { auto it = regs.find((cur_chip << 16) | (cur_port << 8) | (0x40 + cur_cc + 4 * (unsigned)k)); if(it != regs.end()) r[(size_t)k] = it->second; }
         return r;
     }
 };
@@ -65,18 +75,18 @@ static void sweep(Rig &R, const Cfg &c, const std::vector<int> &vels, const std:
     for(size_t a = 0; a < nv; a++) {
         int vel = vels[a];
         opn2_rt_controllerChange(R.I.dev, 0, 7, (OPN2_UInt8)vols[0]); opn2_rt_controllerChange(R.I.dev, 0, 11, (OPN2_UInt8)exprs[0]);
-        tap().log.clear();
+        R.clear_log();
         int r = opn2_rt_noteOn(R.I.dev, 0, 60, (OPN2_UInt8)vel);
         VCHECK(r == 1, "note-on rejected (%s)", show(c, vel, vols[0], exprs[0]).c_str());
         for(size_t b = 0; b < nc; b++) {
-            if(b > 0) tap().log.clear();
+            if(b > 0) R.clear_log();
             opn2_rt_controllerChange(R.I.dev, 0, 7, (OPN2_UInt8)vols[b]);
             for(size_t e = 0; e < ne; e++) {
                 size_t from = (b == 0 && e == 0) ? 0 : tap().log.size();
                 if(!(b == 0 && e == 0)) opn2_rt_controllerChange(R.I.dev, 0, 11, (OPN2_UInt8)exprs[e]);
                 else if(false) {}
                 std::array<int, 4> tl = R.last_tl(from);
-                if(b == 0 && e == 0) tap().log.clear();
+                if(b == 0 && e == 0) R.clear_log();
                 int vol = vols[b], expr = exprs[e];
                 bool nt = false;
                 for(int k = 0; k < 4; k++) {
@@ -116,7 +126,7 @@ static void sweep(Rig &R, const Cfg &c, const std::vector<int> &vels, const std:
 static std::array<int, 4> one_point(Rig &R, const Cfg &c, int vel, int vol, int expr) {
     R.configure(c);
     opn2_rt_controllerChange(R.I.dev, 0, 7, (OPN2_UInt8)vol); opn2_rt_controllerChange(R.I.dev, 0, 11, (OPN2_UInt8)expr);
-    tap().log.clear();
+    R.clear_log();
     VCHECK(opn2_rt_noteOn(R.I.dev, 0, 60, (OPN2_UInt8)vel) == 1, "note-on rejected");
     std::array<int, 4> tl = R.last_tl(0);
     opn2_rt_noteOff(R.I.dev, 0, 60);
@@ -179,6 +189,32 @@ static void run_block(Rig &R, Acc &acc, int model, int alg, int tl, int smod, bo
             prev = t; acc.points++;
             if(b < 64 && t != std::array<int, 4>{{kTLsets[tl][0], kTLsets[tl][1], kTLsets[tl][2], kTLsets[tl][3]}}) acc.nontrivial++;
         }
+    }
+    // (D) brightness moved on a HELD note, down and up again: the levels follow the controller in both directions, and once no
+    //     reduced brightness is in force any more the modulators are back at the instrument's own levels
+    for(int fr = 0; fr < 2; fr++) {
+        Cfg c{model, alg, tl, smod, fr, 127, 127};
+        R.configure(c);
+        opn2_rt_controllerChange(R.I.dev, 0, 7, 100); opn2_rt_controllerChange(R.I.dev, 0, 11, 127);
+        R.clear_log();
+        VCHECK(opn2_rt_noteOn(R.I.dev, 0, 60, 100) == 1, "note-on rejected");
+        std::array<int, 4> at_full = R.last_tl(0), prev = at_full;
+        static const int path[] = {127, 100, 64, 63, 40, 10, 0, 5, 32, 63, 64, 90, 127, 0, 127};
+        int last_b = 127;
+        for(int b : path) {
+            opn2_rt_controllerChange(R.I.dev, 0, 74, (OPN2_UInt8)b);
+            std::array<int, 4> t = R.last_tl(0);
+            Cfg cc = c; cc.bright = b; cur = show(cc, 100, 100, 127) + " (held note)";
+            for(int k = 0; k < 4; k++) {
+                if(b >= last_b) VCHECK(t[(size_t)k] <= prev[(size_t)k], "reg 0x%02X: TL rises %d -> %d when brightness of a held note goes %d -> %d (%s)", 0x40 + 4 * k, prev[(size_t)k], t[(size_t)k], last_b, b, cur.c_str());
+                if(b <= last_b) VCHECK(t[(size_t)k] >= prev[(size_t)k], "reg 0x%02X: lower brightness made a held note brighter: TL %d -> %d when brightness goes %d -> %d (%s)", 0x40 + 4 * k, prev[(size_t)k], t[(size_t)k], last_b, b, cur.c_str());
+                bool full = fr ? b == 127 : b >= 64;
+                if(full) VCHECK(t[(size_t)k] == at_full[(size_t)k], "reg 0x%02X of a held note is %d at full brightness %d after the brightness had been reduced; it was %d before (%s)", 0x40 + 4 * k, t[(size_t)k], b, at_full[(size_t)k], cur.c_str());
+                if(full && !is_carrier(alg, k) && !smod) VCHECK(t[(size_t)k] == kTLsets[tl][k], "modulator reg 0x%02X of a held note is %d at full brightness %d, instrument TL %d (%s)", 0x40 + 4 * k, t[(size_t)k], b, kTLsets[tl][k], cur.c_str());
+            }
+            prev = t; last_b = b; acc.points++; if(!(fr ? b == 127 : b >= 64)) acc.nontrivial++;
+        }
+        opn2_rt_noteOff(R.I.dev, 0, 60);
     }
 }
 
